@@ -677,3 +677,25 @@ Qed.
 Lemma spawn_gate_is_inherited c inh now :
   spawn_connect c inh now = match inh with Some k => if k <? now then None else Some now | None => Some now end.
 Proof. unfold spawn_connect, kill_passed, absorb_kill. cbn [k_kill]. destruct inh; reflexivity. Qed.
+
+(* ------------------------------------------------------------------ runtime kill-date update *)
+Lemma kill_update_stores u : u <> 0 -> kill_update u = Some ((u - epoch0_unix) * 1000000000).
+Proof. intros H. unfold kill_update. replace (u =? 0) with false by lia. reflexivity. Qed.
+
+Lemma kill_update_then_wait c u dl now now' :
+  u <> 0 ->
+  wait_step true (with_kill c (kill_update u)) dl now false = (now', false) ->
+  now' <= (u - epoch0_unix) * 1000000000.
+Proof.
+  intros Hu H. apply wait_not_closing_not_after_kill in H.
+  unfold kill_passed, with_kill in H. cbn [k_kill] in H. rewrite (kill_update_stores u Hu) in H. lia.
+Qed.
+
+Lemma kill_update_passed_closes c u dl now :
+  u <> 0 -> (u - epoch0_unix) * 1000000000 < now -> k_work c = None ->
+  wait_step true (with_kill c (kill_update u)) dl now false = (now, true).
+Proof.
+  intros Hu Hp Hw. rewrite wait_step_spec. unfold after_work, eff_work, with_kill. cbn [k_work]. rewrite Hw.
+  unfold kill_passed. cbn [k_kill]. rewrite (kill_update_stores u Hu).
+  replace ((u - epoch0_unix) * 1000000000 <? now) with true by lia. reflexivity.
+Qed.
